@@ -15,6 +15,7 @@ def check(chk, thorough=False):
     chk.run('C15.b', 'R-ORDER', 'the require-TLS policy is checked (tri-state) before and after the handshake on every path to SESS_INIT / the end of contact negotiation; every failure closes', lambda ob: c15b(tree, ob), floor=5)
     chk.run('C15.c', 'R-TABLE', 'the authentication decision equals the policy table over all identifier outcomes and requirement settings', lambda ob: c15c(tree, ob), floor=180)
     chk.run('C15.e', 'R-TRUTH', 'the TLS policy enforced is the configured one: the configuration loader hands every setting on as read (an explicit false stays false)', lambda ob: __import__('sa.props.common', fromlist=['config_verbatim']).config_verbatim(tree, ob, 'tcpcl/config.py'), floor=2)
+    chk.run('C15.f', 'R-ORDER', 'SESS_INIT leaves only from the contact-negotiation arm, after the TLS decision (start() sends the contact header only) (= C04.b)', lambda ob: __import__('sa.props.c04', fromlist=['c04b']).c04b(tree, ob), floor=3)
     chk.run('C15.d', 'R-ORDER', 'authentication runs before the session is declared established; a failure terminates with the raised reason', lambda ob: c15d(tree, ob), floor=3)
 
 
@@ -224,6 +225,28 @@ def _policy(ip, dns, node, dns_ref, req_host, req_node):
     return bool(contradiction or (req_host and not host_ok) or (req_node and not node_ok))
 
 
+def text_field_faithful(tree, ob):
+    ''' the node ID that is reported, and matched against the certificate, is the one the peer announced, octet for octet:
+    the text field decodes strictly (a lenient decode turns "dtn://ser\xffver/" into the certified "dtn://server/") and does
+    nothing else to the text (a Unicode normalisation reports, and compares, another string than was announced). '''
+    fcls = tree.klass('tcpcl/formats.py', 'StrLenFieldUtf8')
+    for m in [x for x in fcls.body if isinstance(x, ast.FunctionDef) and x.name in ('i2h', 'h2i', 'm2i', 'i2m')]:
+        for c in calls_in(m):
+            nm = (call_name(c) or '').split('.')[-1]
+            if isinstance(c.func, ast.Attribute) and c.func.attr in ('decode', 'encode'):
+                err = kwarg(c, 'errors') if any(k.arg == 'errors' for k in c.keywords) else (c.args[1] if len(c.args) > 1 else None)
+                if err is None or (isinstance(err, ast.Constant) and err.value == 'strict'):
+                    ob.site('tcpcl/formats.py', c, 'StrLenFieldUtf8.{}: strict text coding'.format(m.name))
+                else:
+                    ob.violate('tcpcl/formats.py', 'StrLenFieldUtf8.' + m.name, src(c), 'the node ID text is decoded leniently: octets that are not UTF-8 vanish (or are replaced), so an announced node ID that '
+                               'differs from the certified one compares equal to it', c)
+            elif nm in ('plain_str', 'str', 'bytes'):
+                continue
+            else:
+                ob.violate('tcpcl/formats.py', 'StrLenFieldUtf8.' + m.name, src(c)[:60], 'the text of the field is re-coded ({}): the node ID reported and compared is not the one the peer announced '
+                           '(composed and decomposed spellings become equal)'.format(nm), c)
+
+
 def c15c(tree, ob):
     fv = FuncView(tree, SESS, 'Messenger.merge_session_params')
     # the IPADDR-ID reference is the address of the PEER
@@ -261,30 +284,26 @@ def c15c(tree, ob):
         else:
             ob.violate(SESS, fi.qual, 'peer name = ' + ' / '.join(sorted(vals)), 'the name of the peer is not taken from the connect request (toaddr): asked of the socket it is always an address, the DNS-ID '
                        'reference is then never set, and a certificate with contradicting DNS names is accepted', ci)
-    # the node ID that is matched against the certificate is the one the peer announced, octet for octet: the text decoding
-    # of the field is strict (a lenient one turns "dtn://ser\xffver/" into the certified "dtn://server/")
-    fcls = tree.klass('tcpcl/formats.py', 'StrLenFieldUtf8')
-    for m in [x for x in fcls.body if isinstance(x, ast.FunctionDef) and x.name in ('i2h', 'h2i', 'm2i', 'i2m')]:
-        for c in calls_in(m):
-            if isinstance(c.func, ast.Attribute) and c.func.attr in ('decode', 'encode'):
-                err = kwarg(c, 'errors') if any(k.arg == 'errors' for k in c.keywords) else (c.args[1] if len(c.args) > 1 else None)
-                if err is None or (isinstance(err, ast.Constant) and err.value == 'strict'):
-                    ob.site('tcpcl/formats.py', c, 'StrLenFieldUtf8.{}: strict text coding'.format(m.name))
-                else:
-                    ob.violate('tcpcl/formats.py', 'StrLenFieldUtf8.' + m.name, src(c), 'the node ID text is decoded leniently: octets that are not UTF-8 vanish (or are replaced), so an announced node ID that '
-                               'differs from the certified one compares equal to it', c)
-    # the policy code runs: every name it takes from the ssl module exists in the interpreter the project is installed for
-    # (ssl.match_hostname is gone from python 3.12: reaching such a call raises AttributeError out of the receive callback
-    # instead of ending in "session established" or SESS_TERM contact-failure)
-    import importlib, sys as _sys
-    sslmod = importlib.import_module('ssl')
-    for (r_, q_, f_) in tree.all_functions([SESS]):
-        for a in [x for x in ast.walk(f_) if isinstance(x, ast.Attribute) and isinstance(x.value, ast.Name) and x.value.id == 'ssl']:
-            if hasattr(sslmod, a.attr):
-                continue
-            ob.violate(SESS, q_, 'ssl.' + a.attr, 'ssl.{} does not exist in python {}.{} (the interpreter of the project environment): the statement raises AttributeError when it is reached, '
-                       'inside the handling of SESS_INIT under TLS'.format(a.attr, _sys.version_info[0], _sys.version_info[1]), a)
-    ob.site(SESS, fv.func, 'every ssl.<name> used by the session code exists in python {}.{}'.format(_sys.version_info[0], _sys.version_info[1]))
+    text_field_faithful(tree, ob)
+    # whether the policy applies is decided by whether the stream is secured, nothing else: get_secure_socket() hands out the
+    # TLS socket as it is (one that answers None for a peer without a certificate makes that peer skip every check)
+    fg = FuncView(tree, SESS, 'Connection.get_secure_socket')
+    grets = [r for r in walk_local(fg.func) if isinstance(r, ast.Return)]
+    if len(grets) == 1 and grets[0].value is not None and src(grets[0].value) == 'self.__s_tls':
+        ob.site(SESS, grets[0], 'get_secure_socket() is the TLS socket, unconditionally')
+    else:
+        bad = [r for r in grets if r.value is None or src(r.value) != 'self.__s_tls']
+        ob.violate(SESS, fg.qual, src((bad or grets or [fg.func])[0])[:60], 'the secured-stream test can answer "not secured" for a TLS connection: the certificate checks and the require_*_authn policy '
+                   'are skipped for such a peer and the session is established', (bad or grets or [fg.func])[0])
+    # a peer without a certificate is judged by the policy: the certificate is loaded only if there is one
+    loads = [c for c in calls_in(fv.func) if (call_name(c) or '').endswith('load_der_x509_certificate')]
+    ld = one(loads, 'peer certificate load', ob)
+    arg = src(ld.args[0])
+    if fv.has(ld, arg + ' is None', False) or fv.has(ld, arg, True):
+        ob.site(SESS, ld, 'certificate loaded only when the peer presented one')
+    else:
+        ob.violate(SESS, fv.qual, src(ld)[:70], 'the peer certificate is loaded without looking whether there is one: a TLS client without a certificate makes the load raise out of the '
+                   'receive callback instead of being answered with SESS_TERM contact-failure (or accepted where no authentication is required)', ld)
     # (the policy decision, not the conversion of a decoding error inside an except arm)
     raises = [r for r in walk_local(fv.func) if isinstance(r, ast.Raise) and r.exc is not None and 'TerminateError' in src(r.exc) and enclosing(r, (ast.ExceptHandler,)) is None]
     r = one(raises, 'TerminateError raise in merge_session_params', ob)
